@@ -168,8 +168,12 @@ def make_classes():
 
         def start(self):
             # the copy of the emitter set is taken without a yield after the call starts
-            ENV.s.log("startcopy", who(), sorted(getattr(e, "serial", -1) for e in self.emitters))
+            ENV.s.log("startcopy", who(), [getattr(e, "serial", -1) for e in self.emitters.copy()])
             super().start()
+
+        def _clear_emitters(self):
+            ENV.s.log("clear", who(), [getattr(e, "serial", -1) for e in self.emitters])
+            super()._clear_emitters()
 
         def on_thread_start(self):
             ENV.s.log("dstart", who(), self.ident is not None)
@@ -345,6 +349,68 @@ def dec(ev):
     return -1, -1
 
 
+# ------------------------------------------------------------------------------------------------ model adapter
+def to_wire(events):
+    """Observation log -> wire items of the `observer` model (harness.core.sx format)."""
+    from harness.core import Atom
+    A = Atom
+    b = lambda x: A("1" if x else "0")  # noqa: E731
+    out = []
+    i, n = 0, len(events)
+    while i < n:
+        e = events[i]
+        k = e[1]
+        i += 1
+        if k in ("call", "ret") and e[3][0] == "pause":
+            continue
+        if k == "call":
+            out.append([A("call"), A(e[2]), [A(e[3][0])] + list(e[3][1:])])
+        elif k == "ret":
+            out.append([A("ret"), A(e[2]), [A(e[3][0])] + list(e[3][1:]), b(e[4] is not None)])
+        elif k in ("acq", "rel", "dsetflag", "putm"):
+            out.append([A(k), A(e[2])])
+        elif k in ("clear", "startcopy"):
+            out.append([A("ord"), A(e[2]), list(e[3])])
+        elif k == "emstart":
+            out.append([A(k), A(e[2]), e[3], b(e[4])])
+        elif k == "emstop":
+            out.append([A(k), A(e[2]), e[3]])
+        elif k == "emjoin":
+            out.append([A(k), A(e[2]), e[3], b(e[4])])
+        elif k == "dstart":
+            out.append([A(k), A(e[2]), b(e[3])])
+        elif k == "echeck":
+            out.append([A(k), e[2], b(e[3])])
+        elif k in ("put", "putskip"):
+            out.append([A(k), e[2], e[3], e[4]])
+        elif k == "eexit":
+            out.append([A(k), e[2]])
+        elif k == "dcheck":
+            out.append([A(k), b(e[2])])
+        elif k in ("dexit", "taskdone"):
+            out.append([A(k)])
+        elif k == "get":
+            out.append([A("get"), A("stop")] if e[2] == "stop" else [A("get"), e[2], e[3]])
+        elif k == "turn":
+            if i < n and events[i][1] == "cb" and events[i][2] == e[2]:
+                c = events[i]
+                i += 1
+                out.append([A("turn"), e[2], [[A(x[0])] + list(x[1:]) for x in c[5] if x[0] != "pause"], [c[3], c[4]]])
+            else:
+                out.append([A("turn"), e[2], [], []])
+        elif k == "cb":
+            out.append([A("cb-without-turn"), e[2]])
+    return out
+
+
+def lockstep(runs):
+    """runs: list of (prog, Scheduler). Replays each observation log through the extracted model.
+    Returns list of (index, result sexp)."""
+    from harness import core
+    cases = [core.sx([core.Atom("replay")] + to_wire(s.events)) for _, s in runs]
+    return core.run_model("observer", cases)
+
+
 # ------------------------------------------------------------------------------------------------ oracles
 def removes(c):
     """(h, w) pairs a call removes: h/w None = all."""
@@ -389,9 +455,11 @@ def status_fn(calls, h, w):
             eff = "in"
         elif r is not None and r[0] in (None, h) and r[1] in (None, w):
             eff = "out"
+        if c[0] == "start" and exc not in (None, "unfinished"):
+            eff = "?"
         if eff is None:
             continue
-        if exc is not None and exc != "unfinished":
+        if exc is not None and exc != "unfinished" and c[0] != "start":
             if c[0] in ("remove", "unschedule") and exc == "KeyError":
                 continue        # raised before any mutation
             eff = "?"
